@@ -13,7 +13,7 @@ EXTENDS TraceLib, Json, IOUtils
 VARIABLES t, i, st
 
 M == INSTANCE AppCfg WITH Instances <- {}, MaxGen <- 0, MaxEvents <- 0, Defects <- {},
-                          LateMonitor <- FALSE, n <- 0
+                          LateMonitor <- FALSE, CleanupSvc <- TRUE, n <- 0
 
 Batch == JsonDeserialize(IOEnv.TRACE_FILE)
 Traces == Batch.traces
@@ -39,7 +39,16 @@ Canon(js) ==
    apps |-> FnOf(js.apps, KeyC, ValM),
    running |-> FnOf(js.running, KeyN, ValT),
    cleanup |-> FnOf(js.cleanup, KeyNm, ValT),
-   tomb |-> {CC(c) : c \in SetOf(js.tomb)}]
+   tomb |-> {CC(c) : c \in SetOf(js.tomb)},
+   svc |-> js.svc,
+   cpending |-> [x \in DOMAIN js.cpending |-> [k |-> js.cpending[x].k, n |-> CN(js.cpending[x].n)]],
+   cleaning |-> {CN(x) : x \in SetOf(js.cleaning)},
+   capps |-> {CN(x) : x \in SetOf(js.capps)}]
+
+(* C13 and drift.step look at the fields of the listed property only; the   *)
+(* cleanup service's fields are judged by the ext.cleanup clauses           *)
+CoreFields == {"cache", "ready", "active", "pending", "apps", "running", "cleanup", "tomb"}
+CoreEq(a, b) == \A f \in CoreFields : a[f] = b[f]
 
 (* the container identity the code derives from a cache file (inode, ctime)  *)
 (* is the generation the environment wrote: both views are logged            *)
@@ -79,6 +88,8 @@ Expected(pre, ev, args, post, D) ==
     [] ev = "CleanupCompletes" -> M!DoCleanupDone(pre, [k |-> args[1], i |-> args[2], g |-> args[3]])
     [] ev = "ManagerRestart" -> M!DoRestart(pre)
     [] ev = "NodeStart" -> M!DoNodeStart(pre)
+    [] ev = "CleanupStart" -> M!DoCleanupStart(pre)
+    [] ev = "CleanupEvent" -> M!DoCleanupEvent(pre)
     [] ev = "OnCreated" ->
          M!DoOnCreated(pre, args[1],
                        IF Kind(pre, ev, args) = "sync"
@@ -102,13 +113,55 @@ Enabled(pre, ev, args) ==
     [] ev = "CleanupCompletes" -> [k |-> args[1], i |-> args[2], g |-> args[3]] \in DOMAIN pre.cleanup
     [] ev = "ManagerRestart" -> TRUE
     [] ev = "NodeStart" -> TRUE
+    [] ev = "CleanupStart" -> TRUE
+    [] ev = "CleanupEvent" -> pre.svc /\ pre.cpending # <<>>
     [] ev = "OnCreated" -> HeadIs(pre, "C", args[1])
     [] ev = "OnModified" -> HeadIs(pre, "M", args[1])
     [] ev = "OnDeleted" -> HeadIs(pre, "D", args[1])
     [] OTHER -> FALSE
 
 ExplainedBy(pre, ev, args, post) ==
-  {D \in SUBSET M!AllDefects : Expected(pre, ev, args, post, D) = post}
+  {D \in SUBSET M!AllDefects : CoreEq(Expected(pre, ev, args, post, D), post)}
+
+(* ---- extension: the cleanup service (conformance class, never a          *)
+(* violation of C13) ------------------------------------------------------- *)
+(* the service's fields are what the model computes.  Events appended by    *)
+(* one step are compared as a set: _synchronize visits the instances in the *)
+(* order of a Python set, the model in a fixed one                          *)
+ExtStep(pre, ev, exp, post) ==
+  /\ exp.svc = post.svc /\ exp.cleaning = post.cleaning /\ exp.capps = post.capps
+  /\ IF ev \in {"CleanupStart", "CleanupEvent", "NodeStart"} THEN exp.cpending = post.cpending
+     ELSE LET k == Len(pre.cpending) IN
+          /\ Len(post.cpending) = Len(exp.cpending) /\ Len(post.cpending) >= k
+          /\ SubSeq(post.cpending, 1, k) = pre.cpending
+          /\ SetOf(post.cpending) = SetOf(exp.cpending)
+(* invoke removes exactly its own link, at most the directory the link      *)
+(* pointed to, and leaves running/ and cleaning/ alone                      *)
+ExtInvoke(pre, nm, post) ==
+  /\ DOMAIN post.cleanup = DOMAIN pre.cleanup \ {nm}
+  /\ \A x \in DOMAIN post.cleanup : post.cleanup[x] = pre.cleanup[x]
+  /\ DOMAIN pre.apps \ DOMAIN post.apps \subseteq {pre.cleanup[nm]}
+  /\ pre.cleanup[nm] \notin DOMAIN post.apps
+  /\ post.running = pre.running /\ post.cleaning = pre.cleaning
+(* cleaning links never dangle; a running service with an empty queue has   *)
+(* exactly one cleaning app per cleanup link                                *)
+ExtCleaning(post) ==
+  /\ post.cleaning \subseteq post.capps
+  /\ post.svc /\ post.cpending = <<>> =>
+       post.cleaning = DOMAIN post.cleanup /\ post.capps = post.cleaning
+(* what _sync left is a fixed point of _sync (with ext.cleanup.step:        *)
+(* idempotence), and it did not touch links or containers                   *)
+ExtSync(pre, post) ==
+  /\ M!CleanupSyncOp(post) = post
+  /\ post.cleanup = pre.cleanup /\ post.apps = pre.apps /\ post.running = pre.running
+ExtFail(pre, ev, args, post, by) ==
+  LET D == IF by # {} THEN CHOOSE d \in by : TRUE ELSE {}
+      nm == [k |-> args[1], i |-> args[2], g |-> args[3]] IN
+  F("ext.cleanup.step", by = {} \/ ExtStep(pre, ev, Expected(pre, ev, args, post, D), post))
+  \cup F("ext.cleanup.invoke", ev = "CleanupCompletes" => ExtInvoke(pre, nm, post))
+  \cup F("ext.cleanup.dirs", ev # "CleanupCompletes" => DOMAIN pre.apps \subseteq DOMAIN post.apps)
+  \cup F("ext.cleanup.cleaning", ExtCleaning(post))
+  \cup F("ext.cleanup.sync", ev = "CleanupStart" => ExtSync(pre, post))
 
 Verdict(pre, line, post) ==
   LET ev == line.ev
@@ -126,13 +179,19 @@ Verdict(pre, line, post) ==
                \cup F("C13.noRestart", M!C13noRestart(pre, post))
                \cup F("C13.keep", M!C13keep(pre, kind, post))
                \cup F("drift.step", by # {})
-               \cup F("drift.ident", IdentOK(line.post)),
+               \cup F("drift.ident", IdentOK(line.post))
+               \cup ExtFail(pre, ev, args, post, by),
       ex |-> E("C13", (kind = "sync" /\ (DOMAIN pre.apps # {} \/ DOMAIN pre.cache # {}))
                        \/ (IsHandler(ev) /\ (post.running # pre.running \/ post.cleanup # pre.cleanup)))
              \cup E("sync", kind = "sync") \cup E("term", kind = "term")
              \cup E("twoGen", kind = "sync" /\ twoGen)
              \cup E("finished", kind = "sync" /\ \E c \in DOMAIN pre.apps : M!Finished(pre, c))
              \cup E("keep", kind = "sync" /\ M!Kept(pre) # {})
+             \cup E("ext.cleanup", ev \in {"CleanupStart", "CleanupEvent"}
+                                    \/ (ev = "CleanupCompletes" /\ pre.svc))
+             \cup E("ext.cleanup.gone", ev = "CleanupCompletes"
+                                         /\ pre.cleanup[[k |-> args[1], i |-> args[2], g |-> args[3]]]
+                                              \notin DOMAIN pre.apps)
              \cup E("asRepaired", IsHandler(ev) /\ {} \in by /\ M!AllDefects \notin by)
              \cup E("asUnchanged", IsHandler(ev) /\ M!AllDefects \in by /\ {} \notin by)]
 
